@@ -608,7 +608,7 @@ func runSched(c *Ctx) {
 	sched := c.Pick(2, 4)
 	evTotal := 0
 	for i := 0; i < n; i++ {
-		cyclic := i%(c.Pick(150, 250)) == 59
+		cyclic := i%(c.Pick(400, 250)) == 59
 		var d schedCase
 		if cyclic {
 			d = c.genCycle(false)
